@@ -25,7 +25,7 @@
 //!   T:<ns>                              advance virtual time
 //!   ~<step>                             the same step, but the runtime is not allowed to settle before the next step
 //! output line: <task log>|<completion log>|<live|done>
-//!   task log: lD lC lN@<ns> lF<ns> lW<ns> lS (listener)  d (connect attempt)  w<tx>:<id>@<ns>#<k> (request written during script step k)
+//!   task log: lD lC@<ns> lN@<ns> lF<d>@<ns> lW<d>@<ns> lS (listener, with the virtual time of the notification)  d (connect attempt)  w<tx>:<id>@<ns>#<k> (request written during script step k)
 //!             x<tx>:<id> (write failed)  e<reason>@<ns> (ClientLoop::run returned)
 //!   completion log: c<id>:<class>@<ns>#<k>
 #![allow(deprecated)]
@@ -163,6 +163,13 @@ fn tlog(ctl: &Ctl, s: String) {
     ctl.lock().unwrap().task_log.push(s);
 }
 
+/// a listener notification with the virtual time at which it was made
+fn tlog_at(ctl: &Ctl, s: String) {
+    let mut c = ctl.lock().unwrap();
+    let t = now_ns(&c);
+    c.task_log.push(format!("{s}@{t}"));
+}
+
 /// TcpChannelTask::run / run_inner / try_connect_and_run / run_connection / handle_failed_connection,
 /// with the production ClientLoop calls; the listener is the task log
 async fn channel_task(
@@ -177,7 +184,7 @@ async fn channel_task(
             break;
         }
         // try_connect_and_run
-        tlog(&ctl, "lC".into());
+        tlog_at(&ctl, "lC".into());
         tlog(&ctl, "d".into());
         ctl.lock().unwrap().connecting = true;
         let res = tokio::select! {
@@ -189,7 +196,7 @@ async fn channel_task(
             Err(x) => x,
             Ok(false) => {
                 let delay = retry.after_failed_connect();
-                tlog(&ctl, format!("lF{}", delay.as_nanos()));
+                tlog_at(&ctl, format!("lF{}", delay.as_nanos()));
                 sess.fail_requests_for(delay).await
             }
             Ok(true) => {
@@ -224,7 +231,7 @@ async fn channel_task(
                     "Disabled" => "Elapsed",
                     _ => {
                         let delay = retry.after_disconnect();
-                        tlog(&ctl, format!("lW{}", delay.as_nanos()));
+                        tlog_at(&ctl, format!("lW{}", delay.as_nanos()));
                         sess.fail_requests_for(delay).await
                     }
                 }
